@@ -16,6 +16,9 @@ Static rules (DESIGN.md §C04):
                 each of SEP/NPOL/POL with a non-raising arm and leaves no needed local unbound
  baseline-degree native exchange baselines (_*_x_helper): with the density of degree 1, the increment of
                 dedx[k] has degree deg(e) - deg(X0T[k]) (degree engine sa/deg.py)
+ singular-override  native baselines: no e/dedx increment carries a singular factor after the masked
+                override that repairs it (C08's non-finite-taint rule run on baselines.py)
+ cutoff-pair also requires the zeroing to precede every consumer of the zeroed arrays (see C08)
 """
 import ast
 import os
@@ -364,6 +367,17 @@ def rule_baseline_degree(chk, prog):
     chk.count("native exchange helpers", len(helpers))
 
 
+def rule_baseline_singular(chk, prog):
+    """C08's non-finite-taint rule restricted to the native baselines (same engine, same code)."""
+    import importlib
+    c08 = importlib.import_module("checks.c08")
+    d = c08.Den(chk, prog)
+    entries = c08.baseline_entries(prog)
+    for rel, qual, fn in entries:
+        d.interp.call_function(fn, {})
+    c08.rule_singular_override(chk, d, len(entries))
+
+
 # ----------------------------------------------------------------------------
 # rule 6: mode ladders
 # ----------------------------------------------------------------------------
@@ -449,6 +463,11 @@ def _analyse_own(chk):
     chk.guard(rule_cutoff_pair, prog)
     chk.guard(rule_mode_ladders, prog)
     chk.guard(rule_baseline_degree, prog)
+    chk.rule("singular-override", "native baselines: no output carries a singular factor after the masked override "
+                                  "that repairs it (rule shared with C08: a derivative made singular again is not "
+                                  "the gradient of the repaired value)")
+    chk.guard(rule_baseline_singular, prog)
+    chk.floor("singular-override", 11, "e/dedx increments of the 4 exchange helpers (2+3+3+3)")
     chk.floor("baseline-degree", 7, "4 helpers: dedx rows 0 / 0,3 / 0,1 / 0,1")
     chk.floor("ret-arity", 8, "8 entries of BASELINE_CODES")
     chk.floor("accumulate-py", 10, "5 evaluator classes with their own body x 2 buffers (+3 delegating)")
@@ -486,6 +505,10 @@ def mutants(tree):
                "dedx[0] += 4.0 / 3 * LDA_FACTOR * rho ** (4.0 / 3)\n\n\ndef _vi", expect="baseline-degree"),
         Mutant("pbe_x gradient-slot derivative loses rho**(4/3)", BL, "dedx[1] += LDA_FACTOR * rho ** (4.0 / 3) * dfx",
                "dedx[1] += LDA_FACTOR * rho ** (1.0 / 3) * dfx", expect="baseline-degree"),
+        Mutant("chachiyo: small-s2 override moved before the chain-rule factor (shared C08 rule)", BL,
+               "    dchfx *= dx\n    chfx[s2 < 1e-8] = 1 + 8 * s2[s2 < 1e-8] / 27\n    dchfx[s2 < 1e-8] = 8.0 / 27\n",
+               "    chfx[s2 < 1e-8] = 1 + 8 * s2[s2 < 1e-8] / 27\n    dchfx[s2 < 1e-8] = 8.0 / 27\n    dchfx *= dx\n",
+               expect="singular-override"),
         Mutant("linear evaluator overwrites res", XE, "res[:] += X1.dot(self.consts)", "res[:] = X1.dot(self.consts)",
                expect="accumulate-py"),
         Mutant("spline evaluator overwrites dres columns", XE, "dres[:, ind_set] += dy * self.scale[t]",
